@@ -372,3 +372,153 @@ func ruleC03_5(c *Ctx) {
 		}
 	}
 }
+
+// ---------------------------------------------------------------------------------------------
+// C03.6: recycled and scratch state starts clean
+
+func init() {
+	rule("C03.6", "E2+E3", "recycled and scratch state starts clean: msgPool.Put clears every field of Msg; package-level scratch slices are truncated before the first append of each use; per-request maps are made fresh", 18, ruleC03_6)
+}
+
+func ruleC03_6(c *Ctx) {
+	p := c.P
+	put := c.needMethod(pkgCore, "msgPool", "Put")
+	msg := p.Named(pkgCore, "Msg")
+	if put == nil || msg == nil {
+		return
+	}
+	c.examined(len(put.Blocks))
+	st, _ := msg.Underlying().(*types.Struct)
+	// (a) every field of Msg is assigned its zero value (or truncated to length 0) in Put, on the path that pools the object
+	var poolPut ssa.Instruction
+	allInstrs(put, func(in ssa.Instruction) {
+		if call, ok := in.(*ssa.Call); ok && staticCalleeName(&call.Call) == "(*sync.Pool).Put" {
+			poolPut = in
+		}
+	})
+	if poolPut == nil {
+		c.undecided("msgPool.Put: sync.Pool.Put", p.pos(put.Pos()), "the call that pools the object was not found")
+	} else {
+		for i := 0; i < st.NumFields(); i++ {
+			f := st.Field(i)
+			cleared := false
+			allInstrs(put, func(in ssa.Instruction) {
+				s, ok := in.(*ssa.Store)
+				if !ok {
+					return
+				}
+				fa, ok := s.Addr.(*ssa.FieldAddr)
+				if !ok || fieldVar(fa.X.Type(), fa.Field) != f || strip(fa.X) != ssa.Value(put.Params[1]) {
+					return
+				}
+				if !dominatesInstr(in, poolPut) {
+					return
+				}
+				switch v := s.Val.(type) {
+				case *ssa.Const:
+					if v.Value == nil || v.IsNil() || isZero(v) || v.Value.String() == "false" || v.Value.String() == `""` {
+						cleared = true
+					}
+				case *ssa.Slice:
+					if v.High != nil && isZero(v.High) {
+						if base, ok := fieldLoad(v.X, f); ok && strip(base) == ssa.Value(put.Params[1]) {
+							cleared = true
+						}
+					}
+				}
+			})
+			c.check(cleared, "msgPool.Put clears Msg."+f.Name(), p.pos(put.Pos()), "zeroed / truncated before the object is pooled",
+				"a recycled Msg keeps its "+f.Name()+" from the previous request: the next request decoded into the object starts with another request's state (stale fragments, keys, counters or reply bytes)")
+		}
+	}
+	// (b) package-level scratch slices appended to in the routing code are truncated first
+	for _, fnKey := range []struct{ pkg, typ, m string }{{pkgServer, "listenServer", "OnCReact"}, {pkgServer, "listenServer", "route"}} {
+		fn := c.needMethod(fnKey.pkg, fnKey.typ, fnKey.m)
+		if fn == nil {
+			continue
+		}
+		loops := loopsOf(fn)
+		seen := map[*ssa.Global]bool{}
+		allInstrs(fn, func(in ssa.Instruction) {
+			s, ok := in.(*ssa.Store)
+			if !ok {
+				return
+			}
+			g, ok := s.Addr.(*ssa.Global)
+			if !ok || seen[g] {
+				return
+			}
+			call, ok := s.Val.(*ssa.Call)
+			if !ok {
+				return
+			}
+			if b, ok := call.Call.Value.(*ssa.Builtin); !ok || b.Name() != "append" {
+				return
+			}
+			seen[g] = true
+			// find a truncation g = g[:0] that dominates this append and is outside the append's loop
+			okReset := false
+			allInstrs(fn, func(in2 ssa.Instruction) {
+				s2, ok := in2.(*ssa.Store)
+				if !ok || s2.Addr != ssa.Value(g) {
+					return
+				}
+				sl, ok := s2.Val.(*ssa.Slice)
+				if !ok || sl.High == nil || !isZero(sl.High) {
+					return
+				}
+				if dominatesInstr(in2, in) {
+					l := innermostLoop(loops, in.Block())
+					if l == nil || !l.Blocks[in2.Block()] {
+						okReset = true
+					}
+				}
+			})
+			c.check(okReset, "scratch slice "+g.Name()+" truncated before use in "+shortFn(fn), c.at(in), g.Name()+" = "+g.Name()+"[:0] dominates the first append",
+				"the package-level scratch slice "+g.Name()+" is appended to without having been emptied earlier in the same call: entries left behind by a previous call that returned early (an error half-way through routing) are processed as if they belonged to this request")
+		})
+	}
+	// (c) per-request maps are made fresh by the splitter
+	for _, spec := range []struct{ fn, field string }{{"Frag1", "Frags"}, {"Frag2", "Frags2"}} {
+		fn := c.needMethod(pkgCore, "CRespCodec", spec.fn)
+		f := p.Field(pkgCore, "Msg", spec.field)
+		if fn == nil || f == nil {
+			continue
+		}
+		fresh := false
+		var at ssa.Instruction
+		allInstrs(fn, func(in ssa.Instruction) {
+			s, ok := in.(*ssa.Store)
+			if !ok {
+				return
+			}
+			fa, ok := s.Addr.(*ssa.FieldAddr)
+			if !ok || fieldVar(fa.X.Type(), fa.Field) != f {
+				return
+			}
+			if _, isMake := s.Val.(*ssa.MakeMap); isMake && s.Block() == fn.Blocks[0] {
+				fresh = true
+				at = in
+			}
+		})
+		c.check(fresh, "CRespCodec."+spec.fn+": Msg."+spec.field+" is a fresh map", posOr(c, at, fn), "make(map…) unconditionally at entry",
+			"the per-slot key table is not created fresh for every request: keys of an earlier request that used the same pooled Msg are sent again")
+	}
+	// Decode creates Body and Fd2Slot fresh
+	if dec := c.needMethod(pkgCore, "CRespCodec", "Decode"); dec != nil {
+		for _, fname := range []string{"Body", "Fd2Slot"} {
+			f := p.Field(pkgCore, "Msg", fname)
+			fresh := false
+			allInstrs(dec, func(in ssa.Instruction) {
+				if s, ok := in.(*ssa.Store); ok {
+					if fa, ok := s.Addr.(*ssa.FieldAddr); ok && fieldVar(fa.X.Type(), fa.Field) == f {
+						if _, isMake := s.Val.(*ssa.MakeMap); isMake {
+							fresh = true
+						}
+					}
+				}
+			})
+			c.check(fresh, "CRespCodec.Decode: Msg."+fname+" is a fresh map", p.pos(dec.Pos()), "make(map…) per request", "Msg."+fname+" is not created fresh for every request")
+		}
+	}
+}
